@@ -95,16 +95,24 @@ func (T *Token) SDTVal() string {
 	res := sdtRex.ReplaceAllStringFunc(string(T.Lit), func(match string) string {
 		switch match[1] {
 		case 'T': // user wants this as a token.
-			return "X[" + match[2:] + "].(*token.Token)"
+			return "X[" + decimal(match[2:]) + "].(*token.Token)"
 
 		case 'C': // user wants context.
 			return "C"
 
 		default: // just pass it as an attrib.
-			return "X[" + match[1:] + "]"
+			return "X[" + decimal(match[1:]) + "]"
 		}
 	})
 	return strings.TrimSpace(res[2 : len(res)-2])
+}
+
+// decimal returns digits without leading zeros: Go would read X[010] as X[8].
+func decimal(digits string) string {
+	if d := strings.TrimLeft(digits, "0"); d != "" {
+		return d
+	}
+	return "0"
 }
 
 // Tokenmap
